@@ -160,6 +160,26 @@ def getN (numEndpoints : Nat) (ring : List (Sec × List Nat)) (v n : Nat) : Get 
 def simpleGetN (len v n : Nat) : Get :=
   if len ≤ n then .insufficient else .node (((v + n) % 2 ^ 64) % len)
 
+/-- where `GetN` starts for a series with hash `v`: the suffix of the ring beginning at the first
+    section whose hash is `≥ v`, the whole ring when there is none (`i == numSections → i = 0`) -/
+def searchSuffix (v : Nat) (ring : List Sec) : List Sec :=
+  match ring.dropWhile (fun s => decide (s.hash < v)) with
+  | [] => ring
+  | s :: l => s :: l
+
+/-- all replicas of a series: the precomputed row of the section `GetN` finds -/
+def replicasOfSeries (lapCheck : Bool) (ring : List Sec) (zones : List Nat) (rf v : Nat) : Res :=
+  replicasFor lapCheck ring zones rf (searchSuffix v ring)
+
+/-- Specification of the walk when the zone rule is off (at most one configured zone): scan a
+    finite list of sections, keep the first `rf` sections with pairwise different endpoints. -/
+def pick (rf : Nat) : List Sec → List Sec → List Sec
+  | [], chosen => chosen
+  | s :: l, chosen =>
+    if rf ≤ chosen.length then chosen
+    else if taken chosen s.ep then pick rf l chosen
+    else pick rf l (chosen ++ [s])
+
 /-- `strings.Compare(a.Address, b.Address) <= 0` on the bytes of the addresses -/
 def lexLe : List Nat → List Nat → Bool
   | [], _ => true
